@@ -253,6 +253,33 @@ pub fn structural_faults(base: &str) -> Vec<(String, String)> {
             add(&format!("atoms-value-{}-{}", req[k], missing), format!("{}{}\n", atom_header(&req), vals.join(" ")));
         }
     }
+    // models of different make-up: later models larger, smaller, with another split between ATOM and HETATM rows
+    // (the validation after the read compares every model with the first one, position by position)
+    {
+        let mut cols = req.to_vec();
+        cols.push("pdbx_PDB_model_num");
+        let shapes: [&[&str]; 9] = [&["AA", "AAH"], &["AA", "AAHH"], &["AAH", "AA"], &["AA", "AH"], &["AH", "AHH", "AH"], &["A", "AAA"], &["AH", "HA"], &["", "A"], &["AA", "AA", "AAHHH"]];
+        for (k, shape) in shapes.iter().enumerate() {
+            let mut t = atom_header(&cols);
+            let mut id = 1;
+            for (mi, rows) in shape.iter().enumerate() {
+                for (ri, kind) in rows.chars().enumerate() {
+                    t.push_str(&format!(
+                        "{} A {} {id} {} {} {} {}.0 2.0 3.0 {}\n",
+                        if kind == 'A' { "ATOM" } else { "HETATM" },
+                        if kind == 'A' { "ALA" } else { "HOH" },
+                        if kind == 'A' { "N" } else { "O" },
+                        ri + 1,
+                        if kind == 'A' { "N" } else { "O" },
+                        ri,
+                        mi + 1
+                    ));
+                    id += 1;
+                }
+            }
+            add(&format!("models-make-up-{k}"), t);
+        }
+    }
     add("atoms-no-rows", atom_header(&req));
     add("atoms-duplicate-column", format!("{}_atom_site.id\nATOM A ALA 1 N 1 N 1.0 2.0 3.0 7\n", atom_header(&req)));
     // single items with every kind of value
